@@ -104,8 +104,17 @@ def run_check(cid: str, tier: str, seed: int, jobs: int | None = None) -> int:
     else:
         ctx = mp.get_context("fork")
         chunk = max(1, min(8, len(units) // (jobs * 8) or 1))
+        # VERIF_STOP_AFTER=n (opt-in, used by tools/seedverify.py when it only needs to know WHETHER a seeded defect is reported): stop
+        # once n units have reported violations; such a run is not exhaustive and says so (capped)
+        stop_after = int(os.environ.get("VERIF_STOP_AFTER", "0") or 0)
+        results = []
         with ctx.Pool(jobs, initializer=_init, initargs=(cid, tier)) as pool:
-            results = list(pool.imap_unordered(_work, units, chunksize=chunk))
+            for r in pool.imap_unordered(_work, units, chunksize=chunk):
+                results.append(r)
+                if stop_after and sum(1 for x in results if x.get("violations")) >= stop_after:
+                    pool.terminate()
+                    results.append({"capped": True, "extra": {"stopped_early_units_skipped": len(units) - len(results)}})
+                    break
 
     results = pre_results + results
     n_units = len(units) + len(main_units)
